@@ -468,11 +468,11 @@ bool encode_array::prepare(size_t len)
 		return false;
 	}
 	size_t old = _d.length();
-	if (!_d.set(old + len)) {
+	if (len > (SIZE_MAX - old)) {
 		return false;
 	}
-	_d.set(old);
-	return true;
+	/* keep current content (consumed, finished and active part) */
+	return mpt_array_reserve(&_d, old + len, 0) != 0;
 }
 span<const uint8_t> encode_array::data() const
 {
